@@ -92,7 +92,15 @@ def table : List ClassReads := [
   -- x is an attribute, the distribution's parameters are read through the Container it builds
   { cls := "Distribution", leaf := false, setter := .none,
     cells := [lp [P, M] [(.attr, P), (.attr, M)]] },
-  { cls := "JointDistributionModel", leaf := false, setter := .none, cells := [lp [M] [(.attr, M)]] }
+  { cls := "JointDistributionModel", leaf := false, setter := .none, cells := [lp [M] [(.attr, M)]] },
+  -- JC69 has no parameters: its rate matrix is a constant
+  { cls := "JC69", leaf := false, setter := .none, cells := [live "q" [] []] },
+  { cls := "ExponentialCoalescentModel", leaf := false, setter := .none,
+    cells := [lp [P, M] [(.attr, P), (.attr, M)]] },
+  -- torchtree's own MultivariateNormal model: x, loc and the matrix parameter are attributes
+  { cls := "MultivariateNormal", leaf := false, setter := .none, cells := [lp [P] [(.attr, P)]] },
+  { cls := "BayesianBridge", leaf := false, setter := .none, cells := [lp [P] [(.attr, P)]] },
+  { cls := "CTMCScale", leaf := false, setter := .none, cells := [lp [P, M] [(.attr, P), (.attr, M)]] }
 ]
 
 def find (n : String) : ClassReads :=
@@ -109,6 +117,7 @@ def anchored : List String := [
 /-- the other classes the check's graph instantiates -/
 def further : List String := [
   "FlexibleTimeTreeModel", "HKY", "GTR", "StrictClockModel", "SimpleClockModel", "SitePattern", "ConstantCoalescentModel",
-  "TreeLikelihoodModel", "Distribution", "JointDistributionModel"]
+  "TreeLikelihoodModel", "Distribution", "JointDistributionModel", "JC69", "ExponentialCoalescentModel",
+  "MultivariateNormal", "BayesianBridge", "CTMCScale"]
 
 end TT.C11.Reads
